@@ -26,7 +26,10 @@ GOMOD = """module verif/harness
 
 go 1.13
 
-require github.com/pokt-network/posmint v0.0.0
+require (
+	github.com/anishathalye/porcupine v1.3.0
+	github.com/pokt-network/posmint v0.0.0
+)
 
 replace github.com/pokt-network/posmint => %s
 
@@ -526,6 +529,31 @@ def main():
         violations.append({"kind": "proof", "signature": "proof", "replay": rp, "found_input": False,
                            "what": proof_broken[0]["what"]})
 
+    # ---- extra runtime obligations (supporting validation, not proof)
+    extras_info = {}
+    for ex in P.get("extras", []):
+        if ex == "kvrace":
+            # C15's concurrency clause: several goroutines on one cachekv wrapper under the race detector, the history
+            # of calls checked for linearizability against a plain map
+            rb = run(["go", "build", "-race", "-o", "bin/kvrace", "./cmd/kvrace"], cwd=HARN, timeout=1800,
+                     env=dict(ENV, CGO_ENABLED="1"))
+            if rb.returncode != 0:
+                rp = write_replay(pid, "kvrace-build", {"property": pid, "kind": "build", "log": rb.stdout[-3000:]})
+                violations.append({"kind": "proof", "signature": "kvrace-build", "replay": rp, "found_input": False,
+                                   "what": "the race-detector build of the cachekv concurrency run failed"})
+                continue
+            rounds = 150 if tier == "quick" else 5000
+            rr = run([os.path.join(HARN, "bin", "kvrace"), "--seed", str(seed), "--rounds", str(rounds)],
+                     env=dict(ENV, GORACE="halt_on_error=1 exitcode=66"), timeout=3000)
+            extras_info["kvrace"] = {"rounds": rounds, "result": rr.stdout.strip()[-400:]}
+            if rr.returncode != 0:
+                sig = "C15:data-race" if "DATA RACE" in rr.stdout else "C15:not-linearizable"
+                rp = write_replay(pid, sig.replace(":", "_"), {"property": pid, "kind": "concurrency", "signature": sig,
+                                  "rerun": "cd harness && go build -race -o bin/kvrace ./cmd/kvrace && GORACE=halt_on_error=1 bin/kvrace --seed %d --rounds %d" % (seed, rounds),
+                                  "output": rr.stdout[-6000:]})
+                violations.append({"kind": "monitor", "signature": sig, "replay": rp, "found_input": True,
+                                   "what": "concurrent Get/Has/Set/Delete on one cachekv wrapper: " + sig.split(":")[1]})
+
     # ---- evidence
     obligations = len(thms) if thms else len(P.get("required_theorems", [])) or 1
     discharged = 0
@@ -575,6 +603,7 @@ def main():
                    "by_kind": agg["by_kind"], "by_outcome": agg["by_outcome"],
                    "classes": len(agg["classes"]), "extra": agg["extra"]},
             "t3_facts_checked": P.get("t3", []),
+            "extras": extras_info,
             "monitor_failures": sum(len(r["failures"]) for r in results),
             "known_findings_printed": known_lines,
             "notes": notes,
